@@ -31,7 +31,12 @@ func (dk DependencyKeys) MarshalJSON() ([]byte, error) {
 		sk.Labels = make([]LabelDependent, len(dk.Labels))
 		copy(sk.Labels, dk.Labels)
 		sort.SliceStable(sk.Labels, func(i, j int) bool {
-			return sk.Labels[i].Index < sk.Labels[j].Index
+			if sk.Labels[i].Index != sk.Labels[j].Index {
+				return sk.Labels[i].Index < sk.Labels[j].Index
+			}
+			// make the key independent of the input order
+			// even if an index is (wrongly) repeated
+			return sk.Labels[i].Value < sk.Labels[j].Value
 		})
 	}
 
@@ -40,7 +45,14 @@ func (dk DependencyKeys) MarshalJSON() ([]byte, error) {
 		sk.Attributes = make([]AttributeDependent, len(dk.Attributes))
 		copy(sk.Attributes, dk.Attributes)
 		sort.SliceStable(sk.Attributes, func(i, j int) bool {
-			return sk.Attributes[i].Name < sk.Attributes[j].Name
+			if sk.Attributes[i].Name != sk.Attributes[j].Name {
+				return sk.Attributes[i].Name < sk.Attributes[j].Name
+			}
+			// make the key independent of the input order
+			// even if a name is (wrongly) repeated
+			iExpr, _ := sk.Attributes[i].Expr.MarshalJSON()
+			jExpr, _ := sk.Attributes[j].Expr.MarshalJSON()
+			return string(iExpr) < string(jExpr)
 		})
 	}
 
